@@ -7,7 +7,7 @@ from sa.astx import call_name, dotted, lincmp, lin_expect, src, walk_local
 from sa.effects import accesses, class_accesses
 from sa.selftest import Mutant, Silent
 from sa.source import methods
-from sa.props._lib_d import Inliner, resolve_locals, undecided_tests
+from sa.props._lib_d import FALSY_NONNULL, Inliner, resolve_locals, undecided_tests
 from sa.props._lib_d import (NONNULL, call_nodes, calls_with, const_value_is, implied, is_self_attr, must_pass_under,
                              path_under, reach_under, self_assigns, slice_parts, succ_of)
 
@@ -27,11 +27,12 @@ EXPLANATION = (
     "returned to the reactor); (e) producerPaused is set with pauseProducing and cleared *before* resumeProducing; "
     "_isSendBufferFull is 'buffered > bufferSize' over both buffer levels; pull producers are never paused; "
     "(f) loseConnection/loseWriteConnection/unregisterProducer record the request and wake the writer instead of closing; "
-    "registerProducer/connectionLost keep producer state coupled. Not decided: the exact byte stream under adversarial "
+    "registerProducer/connectionLost keep producer state coupled; whether a producer is registered is decided by identity with None at every site (never by "
+    "the truthiness of the foreign object), and the decision table has rows for a registered but falsy producer. Not decided: the exact byte stream under adversarial "
     "partial writes (value-level), subclasses' writeSomeData."
     " METHODS: every clause has a structural decider (CFG dominance / must-pass / must-precede on views with unknown private helpers inlined, def-use, "
-    "coupled-field effects, who-may-write closure, lincmp normal form); the drained-buffer decision table is finite-exhaustive (all 32 assignments of the five state "
-    "attributes, completeness of that domain checked per run). No clause rests on bounded evidence."
+    "coupled-field effects, who-may-write closure, lincmp normal form); the drained-buffer decision table is finite-exhaustive (all 48 assignments of the state attributes (producer: absent / registered / registered-but-falsy) "
+    ", completeness of that domain checked per run). No clause rests on bounded evidence."
 )
 RULE_KINDS = {
     # CFG dominance / must-pass-through / must-precede on the normalised view (unknown private helpers inlined), def-use of the sent slice and the
@@ -39,7 +40,7 @@ RULE_KINDS = {
     # fix some state attributes ("connected and disconnecting") follow only the branch outcomes consistent with them and BOTH outcomes of every other
     # test, so the verdict holds for every value of everything not fixed: a for-all over paths.
     "*": "structural",
-    # every truth assignment of the five state attributes the drained-buffer tail of doWrite branches on (2^5 = 32 rows); completeness of that domain
+    # every truth assignment of the five state attributes the drained-buffer tail of doWrite branches on (3 x 2^4 = 48 rows: producer absent / registered / registered but falsy); completeness of that domain
     # is checked on each run: under a full assignment no test of the region is left undecided (undecided_tests), i.e. the tail reads nothing else
     "dowrite/table": "finite-exhaustive",
 }
@@ -166,6 +167,54 @@ _TEMP = {"self.offset": 3, "len(self.dataBuffer)": 3, "self._tempDataLen": 5}
 
 def _guard_after(g, n, good, bad, after):
     return implied(g, n, good, bad, after=after)
+
+
+def _presence_by_identity(ctx, mod, inl, classes):
+    """Structural sibling agreement: an attribute that holds an optional FOREIGN object (assigned from a parameter somewhere, None elsewhere) has its
+    presence decided by identity with None at every site of the classes - never by truthiness, which is the foreign object's own business."""
+    foreign = {}
+    for cls in classes:
+        for name, m in methods(cls).items():
+            params = {a.arg for a in m.args.args[1:]}
+            for st in walk_local(m):
+                if isinstance(st, ast.Assign):
+                    for t in st.targets:
+                        if is_self_attr(t) and isinstance(st.value, ast.Name) and st.value.id in params:
+                            foreign.setdefault(t.attr, set()).add("param")
+                        elif is_self_attr(t) and const_value_is(st.value, lambda v: v is None):
+                            foreign.setdefault(t.attr, set()).add("none")
+        for k, v in __import__("sa.source", fromlist=["class_assigns"]).class_assigns(cls).items():
+            if const_value_is(v, lambda x: x is None):
+                foreign.setdefault(k, set()).add("none")
+    optional = sorted(a for a, kinds in foreign.items() if kinds >= {"param", "none"})
+    ctx.need(optional, "an attribute holding an optional user-supplied object (e.g. producer)")
+    nsites = 0
+    for cls in classes:
+        for name, m in methods(cls).items():
+            q = QM + f"{cls.name}.{name}"
+            for x in walk_local(m):
+                operands = []
+                if isinstance(x, (ast.If, ast.While, ast.IfExp, ast.Assert)):
+                    operands = [x.test]
+                elif isinstance(x, ast.BoolOp):
+                    operands = list(x.values)
+                elif isinstance(x, ast.UnaryOp) and isinstance(x.op, ast.Not):
+                    operands = [x.operand]
+                elif isinstance(x, ast.Call) and call_name(x) == "bool":
+                    operands = list(x.args)
+                for o in operands:
+                    if is_self_attr(o) and o.attr in optional:
+                        nsites += 1
+                        ctx.violation("presence/decided-by-identity", ctx.construct(q, x if not isinstance(x, (ast.If, ast.While)) else x.test),
+                                      f"whether self.{o.attr} is set is decided by its truthiness here, while it is set / cleared with None and tested with "
+                                      f"'is None' / 'is not None' everywhere else: a registered {o.attr} object that happens to be falsy (a queue-like producer "
+                                      "with __len__ whose queue is empty) is treated as absent - never resumed, or the connection is closed over it")
+                if isinstance(x, ast.Compare) and len(x.ops) == 1 and is_self_attr(x.left) and x.left.attr in optional \
+                        and const_value_is(x.comparators[0], lambda v: v is None):
+                    nsites += 1
+                    ctx.check(isinstance(x.ops[0], (ast.Is, ast.IsNot)), "presence/decided-by-identity", ctx.construct(q, x),
+                              f"self.{x.left.attr} is compared with None by ==/!= (the foreign object's __eq__), not by identity")
+    ctx.floor("presence/decided-by-identity", nsites, 3)
 
 
 def check(ctx):
@@ -374,7 +423,9 @@ def check(ctx):
         ctx.need(starts, "statement after the offset advance in doWrite")
         drained = {"self.offset": 3, "len(self.dataBuffer)": 3, "self._tempDataLen": 0}
         rows = 0
-        for prod in (None, NONNULL):
+        # "a producer is registered" and "the producer object is truthy" are different facts: a producer is a foreign object and may well be falsy
+        # (a queue-like producer with __len__ whose queue is empty); the table has a row for registered-and-falsy
+        for prod in (None, NONNULL, FALSY_NONNULL):
             for streaming in (False, True):
                 for paused in (False, True):
                     for disc in (0, 1):
@@ -382,7 +433,7 @@ def check(ctx):
                             facts = dict(drained)
                             facts.update({"self.producer": prod, "self.streamingProducer": streaming, "self.producerPaused": paused,
                                           "self.disconnecting": disc, "self._writeDisconnecting": wdisc})
-                            label = (f"<drained: producer={'set' if prod else 'None'} streaming={streaming} paused={paused} "
+                            label = (f"<drained: producer={'None' if prod is None else 'set' if prod is NONNULL else 'set-but-falsy'} streaming={streaming} paused={paused} "
                                      f"disconnecting={disc} writeDisconnecting={wdisc}>")
                             c = q + " | " + label
                             R = reach_under(g, facts, srcs=starts)
@@ -424,7 +475,7 @@ def check(ctx):
                                 ctx.check(w is None, "dowrite/table-half-close", c,
                                           "loseWriteConnection() was requested and everything is sent, yet doWrite does not shut the write side down",
                                           witness=g.describe(w))
-        ctx.floor("dowrite/table", rows, 32)
+        ctx.floor("dowrite/table", rows, 48)
         # nothing of this under a non-drained buffer (path-sensitive version of the guard rule)
         for facts, lab in (({"self.offset": 2, "len(self.dataBuffer)": 3, "self._tempDataLen": 0}, "dataBuffer not drained"),
                            ({"self.offset": 3, "len(self.dataBuffer)": 3, "self._tempDataLen": 5}, "temp buffer not empty")):
@@ -614,6 +665,8 @@ def check(ctx):
         ctx.check(bool(stop) and w is None, "lost/stops-producer", q7 + " | <producer registered>",
                   "a registered producer is not stopped when the connection is lost", witness=g7.describe(w))
 
+    with ctx.section("presence of foreign objects"):
+        _presence_by_identity(ctx, mod, inl, [fd, cm])
     with ctx.section("who may write"):
         # ---- who may write -----------------------------------------------------------------------------------------------------
         allow = {
@@ -695,6 +748,12 @@ MUTANTS = [
            expect_rule="buffer-len/coupled"),
     Mutant("helper-writes-offset-from-outside-dowrite", ABS, "    def pauseProducing(self):\n        self.stopReading()\n",
            "    def pauseProducing(self):\n        self._rewind()\n        self.stopReading()\n\n    def _rewind(self):\n        self.offset = 0\n", expect_rule="who-may-write/offset"),
+    Mutant("producer-presence-by-truthiness-when-pausing", ABS, "        if self.producer is not None and self.streamingProducer:\n", "        if self.producer and self.streamingProducer:\n",
+           expect_rule="presence/decided-by-identity"),
+    Mutant("connection-lost-skips-falsy-producer", ABS, "        if self.producer is not None:\n            self.producer.stopProducing()\n", "        if self.producer:\n            self.producer.stopProducing()\n",
+           expect_rule="presence/decided-by-identity"),
+    Mutant("drained-buffer-ignores-falsy-producer", ABS, "            if self.producer is not None and (\n                (not self.streamingProducer) or self.producerPaused\n            ):\n",
+           "            if bool(self.producer) and (\n                (not self.streamingProducer) or self.producerPaused\n            ):\n", expect_rule="dowrite/table"),
     Mutant("temp-reset-outside-rebase", ABS,
            "            self.offset = 0\n            self._tempDataBuffer = []\n            self._tempDataLen = 0\n\n        # Send as much",
            "            self.offset = 0\n        self._tempDataBuffer = []\n        self._tempDataLen = 0\n\n        # Send as much",
